@@ -281,7 +281,13 @@ func (sc *SortCtx) structSort(name string, st *types.Struct) string {
 func (sc *SortCtx) mapSorts(m *types.Map) (dom, val, ks, vs string) {
 	ks = sc.SortOf(m.Key())
 	vs = sc.SortOf(m.Elem())
-	id := mangle(ks) + "_" + mangle(vs)
+	// one heap per Go map type: maps of different types never alias
+	ts := types.TypeString(m, func(p *types.Package) string { return p.Name() })
+	ts = strings.ReplaceAll(ts, "interface {}", "any")
+	ts = strings.ReplaceAll(ts, "interface{}", "any")
+	ts = reByte.ReplaceAllString(ts, "uint8")
+	ts = reRune.ReplaceAllString(ts, "int32")
+	id := sanitize(ts)
 	if n, ok := sc.mapName[m]; ok {
 		id = n // named map types have their own heap: Go's type system keeps them apart from other maps (conversions are rejected)
 	}
